@@ -3,7 +3,7 @@
     inf/Encode.v; acceptance against the specification function: inf/Accept.v). *)
 From Coq Require Import List NArith ZArith QArith Bool Lia.
 From JS Require Import Str Lit Json Res GoValue Hash Schema Basic Env Ann Validate Spec SpecMono Refine Corollaries
-     GoType Encode Infer InferFacts Accept WellTyped C04Main.
+     GoType Encode Infer InferFacts Accept WellTyped C04Main FieldsFacts Domain.
 Import ListNotations.
 Local Open Scope nat_scope.
 
@@ -41,6 +41,33 @@ Proof.
 Qed.
 Print Assumptions C04_validate.
 
+(** The same with the domain as a computable condition on the type: [dom o t] says that defined
+    types have no TypeSchemas entry, the standard marshaler types have theirs (a string
+    schema), no embedded struct is replaced through TypeSchemas and no embedded field of an
+    unexported type carries a json name.  The side conditions of C04_main ([good]) follow:
+    every selected field is the declared field at its index sequence, reached through
+    embedded fields (FieldsFacts.json_fields_ok), the selection does not depend on TypeSchemas
+    (json_fields_ext) and its omitempty/omitzero flags are those inference reads. *)
+Theorem C04_domain : forall re_match e oz o,
+  e_draft7 e = false -> o_ignore o = false -> o_tsnull o = false ->
+  (forall n x, lookup n (o_schemas o) = Some x -> x = Some str_schema) ->
+  forall t s, dom o t = true -> ForType o t = Ok (Some s) ->
+  forall m v k j, wt m t v = true -> encode oz k t v = Some j ->
+  accepts re_match e s j.
+Proof.
+  intros re_match e oz o Hd Hig Hts Hstd t s Hdom Hf m v k j Hw He.
+  apply (C04_main re_match e oz o Hd Hig Hts t s Hf (S (gsize t)) (dom_good o Hstd _ t (Nat.lt_succ_diag_r _) Hdom) m v k j Hw He).
+Qed.
+Print Assumptions C04_domain.
+
+(** every selected field is the declared field at its index sequence (for every struct type) *)
+Theorem C04_fields_sound : forall ovr t,
+  (match strip_named t with TyPtr _ => False | _ => True end) ->
+  forall f, In f (json_fields ovr t) ->
+  type_at (jf_index f) t = Some (jf_decl f) /\ path_embedded (jf_index f) t = true /\ jf_index f <> [].
+Proof. exact json_fields_ok. Qed.
+Print Assumptions C04_fields_sound.
+
 (** the selection of struct fields keeps one field per JSON name (what lets the encoding's
     members be matched with the schema's properties) *)
 Theorem C04_names_distinct : forall ovr t, NoDup (map jf_name (json_fields ovr t)).
@@ -74,6 +101,9 @@ Proof.
   - intros f Hf. vm_compute in Hf.
     repeat (destruct Hf as [<-|Hf]; [cbn; repeat split; try (left; reflexivity); try (right; reflexivity); auto|]); try contradiction.
 Qed.
+
+Example C04_example_dom : dom o_std tT = true.
+Proof. vm_compute. reflexivity. Qed.
 
 Example C04_example : exists s j,
   ForType o_std tT = Ok (Some s) /\ wt 6 tT vT = true /\ encode false 9 tT vT = Some j /\
